@@ -151,6 +151,35 @@ func runC09(c *core.Ctx) {
 		}
 		return ""
 	}
+	// ---- cmt.message: the text of a diagnostic is part of the diagnostic. A rendering that prints comments, handed to a
+	// constructor of *LintError (or formatted into a LintError's Message), puts the comment into the message:
+	// `return (fetch /* go */);` is reported as `"fetch /* go */" is invalid`, and removing the comment changes the
+	// diagnostic. (Plain errors of unreachable default arms - `unexpected node: …` - are not diagnostics of a program.)
+	for _, fn := range prog.ModuleFuncs("linter") {
+		ord := 0
+		for _, b := range fn.Blocks {
+			for _, in := range b.Instrs {
+				v, isV := in.(ssa.Value)
+				if !isV || isSource(v) == "" || v.Referrers() == nil {
+					continue
+				}
+				for _, r := range *v.Referrers() {
+					call, isCall := r.(*ssa.Call)
+					if !isCall {
+						continue
+					}
+					res := call.Common().Signature().Results()
+					if res.Len() != 1 || core.NamedTypeName(derefType(res.At(0).Type())) != "LintError" {
+						continue
+					}
+					ord++
+					c.Report("cmt.message", fmt.Sprintf("%s|%s#%d", core.FnName(fn), call.Common().StaticCallee().Name(), ord), r.Pos(), fmt.Sprintf("%s builds a diagnostic from %s: comments written inside the expression become part of the message, so removing an ordinary comment changes the linter's diagnostics", core.FnName(fn), isSource(v)))
+				}
+			}
+		}
+	}
+	c.Instances("cmt.message", 0)
+
 	scopeFuncs := prog.ModuleFuncs("parser", "linter", "interpreter", "tester")
 	// inter-procedural taint of string parameters
 	tainted := map[*ssa.Parameter]string{}
